@@ -12,7 +12,7 @@ PROP = {'title': 'Typed wrappers are transparent; ==, < and hash are mutually co
  'level_note': 'component domain {0,1,2} ({0,1} for 4- and 6-component types and 4-node trees); sizes <= 3 (grid <= 2x2, tree <= 4 nodes); '
                'int/unsigned/string components in the pair+triple universes; element-semantics universes (pairs only) use double {+0.0,-0.0,1,NaN,inf}, a padded trivially copyable struct whose == ignores a member and the padding, and a type with non-reflexive ==; strong_typedef operators additionally over float/double special values and a partially ordered flag set; the oracle key of each object is written down while the object is built',
  'binaries': [{'name': 'C17',
-               'sources': ['harness/C17.cpp', 'harness/C17_sum.cpp', 'harness/C17_math.cpp', 'harness/C17_cont.cpp', 'harness/C17_elem.cpp', 'harness/C17_elem2.cpp'],
+               'sources': ['harness/C17.cpp', 'harness/C17_sum.cpp', 'harness/C17_math.cpp', 'harness/C17_cont.cpp', 'harness/C17_elem.cpp', 'harness/C17_elem2.cpp', 'harness/C17_order.cpp', 'harness/C17_rec.cpp'],
                'libs': [],
                'flavour': 'asan'}],
  'deadline': {'quick': 300, 'thorough': 1500},
@@ -27,7 +27,13 @@ PROP = {'title': 'Typed wrappers are transparent; ==, < and hash are mutually co
          'pairs (including an object with itself and with a byte-identical second object) over component types double/padded/nr: == must '
          'be exactly shape equality plus std::equal over the plain component values with the component type\'s own ==, != its negation, '
          'equal => equal hash, and for pairs of totally ordered values < is the documented lexicographic order with the component\'s < and '
-         'exactly one of ==, a<b, b<a holds; such a pair is non-trivial when element-wise == and byte identity disagree',
+         'exactly one of ==, a<b, b<a holds; such a pair is non-trivial when element-wise == and byte identity disagree'
+         '; operand-order shards: every strong_typedef operator over an underlying type whose operators encode (operator, left, right) in '
+         'their result and count their invocations (5x5 operand values, lvalue/const lvalue/rvalue operands): result == left op right, exactly '
+         'one invocation of exactly that operator, operands unchanged; strong_typedef over fcppt 2x2 int matrices (all 81^2 pairs, plain '
+         'integer product as oracle) and over permutations of {0,1,2}; record_pairs: for the value-type patterns (int,int,int), (int,int,bool), '
+         '(int,long,bool) all 6 element orders, all 36 ordered pairs of record types, all label values: r1==r2 iff equal label by label, != the '
+         'negation, both argument orders, a == permute<R2>(a)',
  'assumptions': ['only the operators and hash objects a type really offers are checked (tuple, array, record, either, tree, sphere, '
                  'recursive, enum array, matrix: no <; hash only for strong_typedef, reference, shared_ptr, vector, dim, matrix, bitfield '
                  'and range::hash over raw_vector)',
